@@ -82,7 +82,8 @@ def run(rep):
         "correct undo, and that undos compose over whole histories and nestings, is NOT proved: bounded driver (full observable "
         "state incl. the raw GLPK problem snapshotted at __enter__ and compared after __exit__ over operation sequences, nestings, "
         "exits by exception and naturally raising operations)."),
-        trusted=["non-reentrancy: an undo entry does not touch the history being reset (stated in the reset contract)",
+        trusted=["Model.add_reactions[context]: at the call site self.add_metabolites(metabolite) with a context open the callee is ASSUMED to change model.metabolites / _model / _reaction as its no-context contract (proved without a context only) says - its precondition without `no context open` is obliged - and to register its own undos (recorded call, not looked at); the callees' own undos are ASSUMED (glue lemmas only) to touch _model / _reaction of joined metabolites and genes only; stated precondition own-keys-do-not-list",
+                 "non-reentrancy: an undo entry does not touch the history being reset (stated in the reset contract)",
                  "optlang (assumed contracts, ghost matrix A): Constraint.get_linear_coefficients([v]) reads A[c][v]; "
                  "Constraint.set_linear_coefficients({v: x}) writes exactly A[c][v] := x; Container: `name in`, `[name]` by pairwise "
                  "different constraint names; Model.update() writes no coefficient; `variable.problem is solver` decides membership; "
